@@ -186,7 +186,7 @@ class Engine(EngineBase):
             res["executed"] = run.executed
             res["digest"] = world.digest()
             res["stats"]["steps"] = world.seq
-            res["stats"]["sim_ms"] = world.clock_ms - 1_000_000_000
+            res["stats"]["sim_ms"] = world.clock_ms - 1_000_000_000_000
             res["stats"]["probes"] = run.probes
             res["stats"]["faults"] = {"restart": run.probes.get("restart", 0),
                                       "cache_removed": run.probes.get("rm_cache", 0),
